@@ -64,6 +64,23 @@ def _facade(rig):
     return c
 
 
+def _pairings_endpoint(rig, scripted):
+    """POST /pairings of an accessory that is scripted for the operation under test only: a LIST request (method 5) is answered with the honest
+    list - this controller, as admin - whatever the script says.  (A follow-up look at the list must not turn a refused add / remove into a success.)"""
+    def handler(sess, method, target, headers, body):
+        try:
+            req = dict(tlv8.decode(bytes(body)))
+        except Exception:  # noqa: BLE001
+            req = {}
+        if req.get(0) == b"\x05":
+            pd = rig.pairing.pairing_data
+            items = [(6, b"\x02"), (1, pd["iOSPairingId"].encode()), (3, bytes.fromhex(pd["iOSDeviceLTPK"])), (11, b"\x01")]
+            return 200, tlv8.encode(items), "application/pairing+tlv8"
+        return scripted()
+
+    return handler
+
+
 def case_mgmt(p):
     """p['cells']: list of cell dicts sharing step; one rig for all of them."""
     step = p["step"]
@@ -76,7 +93,7 @@ def case_mgmt(p):
                 from vt.env.iprig import IpRig, std_handler
 
                 rig = IpRig(seed=p.get("seed", 0))
-                rig.acc.handler = std_handler({("POST", "/pairings"): lambda *a, cell=cell: (cell.get("http", 200), tlv8.encode(_reply_items(cell)), "application/pairing+tlv8")})
+                rig.acc.handler = std_handler({("POST", "/pairings"): _pairings_endpoint(rig, lambda cell=cell: (cell.get("http", 200), tlv8.encode(_reply_items(cell)), "application/pairing+tlv8"))})
                 rig.connect()
             else:
                 from vt.env.blerig import BleRig
@@ -103,7 +120,7 @@ def case_mgmt(p):
         rig = IpRig(seed=p.get("seed", 0))
         cur = {}
         try:
-            rig.acc.handler = std_handler({("POST", "/pairings"): lambda *a: (cur.get("http", 200), tlv8.encode(cur["items"]), "application/pairing+tlv8")})
+            rig.acc.handler = std_handler({("POST", "/pairings"): _pairings_endpoint(rig, lambda: (cur.get("http", 200), tlv8.encode(cur["items"]), "application/pairing+tlv8"))})
             rig.connect()
             for cell in p["cells"]:
                 cell = dict(cell, step=step)
